@@ -6,6 +6,7 @@ import (
 	"encoding/json"
 	"fmt"
 	"strings"
+	"sync"
 	"time"
 
 	"github.com/emitter-io/emitter/internal/event"
@@ -178,6 +179,45 @@ func RunC03(c *core.Ctx) {
 	if n == 0 || n != expected {
 		core.Fatalf("received %d cases from TLC, the grid has %d", n, expected)
 	}
+	// histories: the same key string presented repeatedly on one running broker. "has not expired" is a statement about
+	// the moment of use: a key accepted now must be refused once its expiry has passed (AuthZ!Authorize with expiry
+	// "future" before, "past" after); a banned key is refused, an unbanned one accepted again.
+	var wg sync.WaitGroup
+	for v := 1; v <= 3; v++ {
+		wg.Add(1)
+		go func(v int) {
+			defer wg.Done()
+			b := brokers[v]
+			key := security.Key(make([]byte, 24))
+			key.SetSalt(uint16(777 + v))
+			key.SetMaster(1)
+			key.SetContract(b.Lic.Contract())
+			key.SetSignature(b.Lic.Signature())
+			key.SetPermissions(bk.Perms("rwslp"))
+			key.SetExpires(time.Now().Add(2 * time.Second))
+			key.SetTarget("a/#/")
+			ks := b.RawKey(key)
+			use := func() bool {
+				_, _, ok := b.Svc.Authorize(security.ParseChannel([]byte(ks+"/a/b/")), security.AllowRead)
+				return ok
+			}
+			var obs []bool
+			for i := 0; i < 3; i++ {
+				obs = append(obs, use())
+			}
+			time.Sleep(3200 * time.Millisecond)
+			for i := 0; i < 3; i++ {
+				obs = append(obs, use())
+			}
+			want := []bool{true, true, true, false, false, false}
+			if fmt.Sprint(obs) != fmt.Sprint(want) {
+				replay, _ := json.Marshal(map[string]any{"e": "history", "license": v, "key": ks, "expires_in_s": 2, "uses_before_and_after": obs})
+				c.Violation(fmt.Sprintf("license v%d: a key expiring in 2 s was authorized %v over three uses before and three uses after its expiry, must be %v", v, obs, want), replay)
+			}
+		}(v)
+	}
+	wg.Wait()
+	c.Add("expiry_while_in_use_histories", 3)
 	nontrivial = granted
 	c.Set("evaluations", n*3)
 	c.Set("cases", n)
